@@ -56,7 +56,19 @@ def run(ctx):
                    cp=[[l, tr(x)] for l, x in om['cp']])
         models[j] = (src, om2)
         enc_of[j] = ['ISO-8859-1', 'iso-8859-9', 'latin-1'][(j // 7) % 3]
+    # a model that the trainer wrote - twice, into the same rule directory, the second time with another n-gram size: the generator must
+    # enumerate the levels of the model that the files now describe (n-gram size read off the n-grams themselves, not off any setting)
+    try:
+        rt = retrained_model(rng)
+        if rt is not None:
+            models.append(('retrained', rt))
+    except Exception as e:
+        retr_err = repr(e)[:200]
+    else:
+        retr_err = None
     ops, exp, meta, viol, samples = [], [], [], [], []
+    if retr_err:
+        viol.append({'property': 'C10', 'kind': 'implementation-raised', 'error': retr_err, 'witness': {'retrained': True}})
     dist = {'ngram': {}, 'letters': {}, 'warm_cache': {}, 'raise': 0, 'one_byte_encodings': len(enc_of)}
     cases = nontrivial = guesses = 0
     seen = set()
@@ -68,7 +80,12 @@ def run(ctx):
             spec = {'terminals': {'D1': [['1', '1.0']]}, 'grammar': [['M', '0.5'], ['D1', '0.5']], 'omen_prob': [['1', '0.5']], 'omen': om}
         if i in enc_of:
             spec['encoding'] = enc_of[i]
-        d = common.write_ruleset(os.path.join(root, f"o{i % 20}"), spec)
+        if src == 'retrained':
+            d, via, retr_pws = om['_dir'], False, om['_pws']
+            om = {k: v for k, v in om.items() if k not in ('_dir', '_pws')}
+            dist['retrained_in_place'] = 1
+        else:
+            d = common.write_ruleset(os.path.join(root, f"o{i % 20}"), spec)
         warm = rng.random() < 0.5 or via
         dist['via_grammar_object'] = dist.get('via_grammar_object', 0) + int(via)
         space = sum(len(om['alphabet']) ** ln for ln in range(om['ngram'], len(om['ln']) + 1))
@@ -106,6 +123,8 @@ def run(ctx):
         meta.append((start, len(ops), om))
         for v in r['violations']:
             v['witness'] = {'omen': om}
+            if src == 'retrained':
+                v['witness']['retrained_passwords'] = retr_pws
             viol.append(v)
         if len(samples) < 3 and st['guesses'] > 10:
             samples.append({'omen': om, 'stats': st})
@@ -133,10 +152,38 @@ def run(ctx):
             'extra': {'guesses_compared': guesses, 'protocol_ops': len(ops)}}
 
 
+def retrained_model(rng, pws=None):
+    """train a list with n-gram size 3, then again into the same directory with n-gram size 4; the model = what the files say now"""
+    pws = pws or [''.join(rng.choice('abb') for _ in range(rng.randint(3, 6))) for _ in range(40)]
+    tf = os.path.join(common.scratch_dir('c10t'), 'list.txt')
+    with open(tf, 'w', encoding='utf-8') as f:
+        f.write(''.join(p + '\n' for p in pws))
+    rd = os.path.join(common.scratch_dir('rules'), 'c10retrained')
+    ok1, _ = common.train(tf, rd, ngram=3, coverage=0.6, max_len=6)
+    ok2, _ = common.train(tf, rd, ngram=4, coverage=0.6, max_len=6, keep=True)
+    if not (ok1 and ok2):
+        return None
+    od = os.path.join(rd, 'Omen')
+
+    def recs(name):
+        return [ln.rstrip('\n').split('\t') for ln in open(os.path.join(od, name), encoding='utf-8') if ln.rstrip('\n')]
+    ip = [[int(a), b] for a, b in recs('IP.level')]
+    return {'_dir': rd, '_pws': pws, 'ngram': len(ip[0][1]) + 1, 'alphabet': [x[0] for x in recs('alphabet.txt')], 'ip': ip,
+            'ep': [[int(a), b] for a, b in recs('EP.level')], 'cp': [[int(a), b] for a, b in recs('CP.level')],
+            'ln': [int(x[0]) for x in recs('LN.level')], 'keyspace': []}
+
+
 def replay(ctx, payload):
     w = payload.get('violation', {}).get('witness')
     if not w:
         return []
+    if w.get('retrained_passwords'):
+        common.use_impl()
+        rt = retrained_model(ctx.rng, pws=w['retrained_passwords'])
+        if rt is None:
+            return []
+        om = {k: v for k, v in rt.items() if k not in ('_dir', '_pws')}
+        return corr_omen.run_case(rt['_dir'], om, ctx.rng, range(0, 9), False)['violations']
     om = w['omen']
     d = common.write_ruleset(os.path.join(common.scratch_dir('rules'), 'replay'), {'terminals': {}, 'grammar': [], 'omen': om})
     r = corr_omen.run_case(d, om, ctx.rng, range(0, 9), False)
